@@ -715,6 +715,14 @@ func check(c Case) error {
 			if n > len(e.lines) {
 				return fmt.Errorf("failing source %q: %d lines emitted, only %d decodable", name, n, len(e.lines))
 			}
+			// "all bytes read before the error are still delivered as lines":
+			// what the decoder hands over before it reports the damage is the
+			// same for every reader of the same bytes, so nothing of it may be
+			// missing - the lines decodable from the damaged file are all there
+			// (the last one possibly cut short by the damage itself).
+			if n < len(e.lines) {
+				return fmt.Errorf("failing source %q: %d lines emitted, but %d lines can be decoded before the damage (the tail that arrived together with the read error is missing)\nargs=%q\nstderr=%s", name, n, len(e.lines), args, pbt.Trunc(stderr, 400))
+			}
 			for i := 1; i <= n; i++ {
 				texts := g[i]
 				if len(texts) != 1 {
